@@ -33,7 +33,27 @@ class Obs:
             elif part.startswith("conn"):
                 head, _, evs = part.partition("|")
                 res = head.split("=", 1)[1]
-                self.conns.append((res, [e for e in evs.split("~") if e]))
+                self.conns.append((res, merge_writes([e for e in evs.split("~") if e])))
+
+def merge_writes(evs):
+    """a Write that waited for a stalled client is logged in two parts (WP = what the socket buffers took, WC = the rest after the
+    client read again): present it as the one write it was.  A WP that was never completed (deadline, client gone) stays visible
+    as WPART: the client received a truncated frame."""
+    out, pend = [], None          # pend = index in out of an uncompleted partial write
+    for e in evs:
+        if e.startswith("WP@"):
+            head, payload = e.split(":", 1)
+            out.append("WPART@%s:%s" % (head.split("@")[1], payload or "-"))
+            pend = len(out) - 1
+            continue
+        if e.startswith("WC@") and pend is not None:
+            pos, first = out[pend][6:].split(":", 1)
+            rest = e.split(":", 1)[1]
+            out[pend] = "W@%s:%s" % (pos, (("" if first == "-" else first) + ("" if rest == "-" else rest)) or "-")
+            pend = None
+            continue
+        out.append(e)
+    return out
 
 ERR_MODEL = "W:2d4552520d0a"      # the model's placeholder text for framework-generated errors: -ERR\r\n
 MAPORDER = {hx(b"MSET"), hx(b"MSETNX"), hx(b"HMSET")}
@@ -48,6 +68,8 @@ def norm_events(evs, is_model, model_evs=None):
             continue
         if e.startswith("W@") or e.startswith("WX@"):
             e = "W:" + e.split(":", 1)[1]
+        elif e.startswith("WPART@"):
+            e = "WPART:" + e.split(":", 1)[1]
         elif e.startswith("C:") and not is_model and e.count(":") >= 5 and re.match(r"C:-?\d+:[01]:[^:]*:[01]:", e):
             p = e.split(":", 5)           # C db auth tok reg text
             e = "C:%s:%s:%s" % (p[1], p[2], p[5])
@@ -78,6 +100,8 @@ def align_pair(ie, me):
         x, y = a[i], b[i]
         if y == ERR_MODEL and x.startswith("W:2d") and x.endswith("0d0a"):
             a[i] = b[i] = "W:<error>"
+        elif x.startswith("WPART:") and y.startswith("W:") and y[2:].startswith("" if x[6:] == "-" else x[6:]):
+            a[i] = b[i]           # the transport failed inside this write: the client got a prefix of the frame
         elif x.startswith("C:") and y.startswith("C:") and x != y and ":Scan(" in y:
             # glob patterns are modelled on ASCII only (Go ranges over runes: invalid UTF-8 becomes U+FFFD)
             mm = re.search(r"match=([0-9a-f]+)", y)
@@ -196,9 +220,9 @@ def writes_of(evs):
     """[(delivered_offset, payload bytes, failed?)]"""
     out = []
     for e in evs:
-        if e.startswith("W@") or e.startswith("WX@"):
+        if e.startswith("W@") or e.startswith("WX@") or e.startswith("WPART@"):
             head, payload = e.split(":", 1)
-            out.append((int(head.split("@")[1]), unhx(payload), e.startswith("WX")))
+            out.append((int(head.split("@")[1]), unhx(payload), "partial" if e.startswith("WPART") else e.startswith("WX")))
         elif e.startswith("W:"):                     # model events carry no delivery offset
             out.append((-1, unhx(e[2:]), False))
     return out
@@ -214,7 +238,16 @@ def calls_of(evs):
 
 def monitor_frames(evs):
     """C04: every write is exactly one strictly well-formed RESP2 value. Returns error text or None."""
-    for off, payload, failed in writes_of(evs):
+    ws = writes_of(evs)
+    for wi, (off, payload, failed) in enumerate(ws):
+        if failed == "partial" and not payload:
+            continue                  # nothing of this reply reached the client (a lost reply is C03's subject, not a malformed stream)
+        if failed == "partial":
+            # the transport stopped taking bytes inside a frame: the stream may END there, nothing may follow the truncated frame
+            later = [w for w in ws[wi + 1:] if w[2] is False or w[2] == "partial"]
+            if later:
+                return "a reply frame was cut short after %d bytes (%r...) and the server went on writing %r behind it" % (len(payload), payload[:30], later[0][1][:60])
+            continue
         try:
             v, p = strict_decode(payload)
         except ValueError as ex:
